@@ -206,11 +206,20 @@ impl<'a> Gen<'a> {
             text = vec![Inl::W(if self.rng.chance(1, 3) { t.dest.to_uppercase() } else { t.dest.clone() })];
         }
         if t.external {
-            let style = if self.rng.chance(1, 4) {
+            let mut style = if self.rng.chance(1, 4) {
                 LStyle::Auto
             } else {
                 LStyle::Inline
             };
+            // rich link text that spells the url itself (a code span, emphasis): must stay what it is, not collapse into <url>
+            if self.rng.chance(1, 10) {
+                style = LStyle::Inline;
+                text = vec![match self.rng.below(3) {
+                    0 => Inl::Code(t.dest.clone()),
+                    1 => Inl::Emph(vec![Inl::W(t.dest.clone())]),
+                    _ => Inl::Strong(vec![Inl::W(t.dest.clone())]),
+                }];
+            }
             return Some(Inl::Link {
                 dest: t.dest,
                 text,
